@@ -554,3 +554,50 @@ Proof.
       repeat (destruct p as [p|p|]; try reflexivity). congruence. }
     rewrite Hm in H. eapply (G (c :: x') LEmpty ltac:(discriminate) true); exact H.
 Qed.
+(* a '?'-prefixed path: item access, get and first alike answer a value or '' - never an exception, never the
+   caller's default - for every string after the '?' (ill-formed ones included) *)
+Lemma dict_get_core_shape fuel root y rl dflt root' r :
+  dict_get_core fuel root y false rl dflt = Ok (root', r) -> r = dflt \/ exists v, r = LVal v.
+Proof.
+  unfold dict_get_core. destruct (has_path_char y).
+  - destruct (find true rl fuel root (tokenize y) (PAt []) root s_root) as [[[r0 m] F]|e0| |] eqn:Ef; try discriminate.
+    + destruct (rest_falsy (f_rest F)); [destruct (f_val F); [|discriminate]|]; intros H; inversion H; subst; eauto.
+    + rewrite (find_raises_funnelled rl _ _ _ _ _ _ _ Ef). intros H; inversion H; subst; eauto.
+  - destruct root; try discriminate. destruct (lookup y kvs); intros H; inversion H; subst; eauto.
+Qed.
+
+Theorem dict_qmark_yields_value_or_empty fuel root x re rl root' r :
+  dict_get fuel root (63%N :: x) re rl = Ok (root', r) -> r = LEmpty \/ exists v, r = LVal v.
+Proof. cbn [dict_get]. apply dict_get_core_shape. Qed.
+
+Lemma list_get_core_shape fuel root y rl dflt root' r :
+  list_get_core fuel root y false rl dflt = Ok (root', r) -> r = dflt \/ exists v, r = LVal v.
+Proof.
+  unfold list_get_core. destruct (has_path_char y).
+  - destruct (lfind rl fuel root (tokenize y) (PAt []) root s_root) as [[[r0 m] F]|e0| |] eqn:Ef; try discriminate.
+    + destruct (rest_falsy (f_rest F)); [destruct (f_val F); [|discriminate]|]; intros H; inversion H; subst; eauto.
+    + rewrite (lfind_raises_funnelled rl _ _ _ _ _ _ _ Ef). intros H; inversion H; subst; eauto.
+  - destruct root; try discriminate. destruct (n0eval y); try discriminate.
+    + destruct (norm_idx (length xs) z); [destruct (nth_error xs n); [|discriminate]|]; intros H; inversion H; subst; eauto.
+    + intros H; inversion H; subst; eauto.
+Qed.
+
+Theorem list_qmark_yields_value_or_empty fuel root x re rl root' r :
+  list_get fuel root (63%N :: x) re rl = Ok (root', r) -> r = LEmpty \/ exists v, r = LVal v.
+Proof. cbn [list_get]. apply list_get_core_shape. Qed.
+
+(* get / first: a value or the caller's default (or '' after a '?'), nothing else *)
+Theorem dict_get_value_or_default fuel root x rl root' r :
+  dict_get fuel root x false rl = Ok (root', r) -> r = LDefault \/ r = LEmpty \/ exists v, r = LVal v.
+Proof.
+  unfold dict_get. destruct x as [|c x'].
+  - intros H. destruct (dict_get_core_shape _ _ _ _ _ _ _ H); auto.
+  - destruct (N.eqb c 63) eqn:Ec.
+    + apply N.eqb_eq in Ec. subst c. intros H. destruct (dict_get_core_shape _ _ _ _ _ _ _ H); auto.
+    + assert (Hm : match c :: x' with 63%N :: x'0 => dict_get_core fuel root x'0 false rl LEmpty
+                                  | _ => dict_get_core fuel root (c :: x') false rl LDefault end
+                   = dict_get_core fuel root (c :: x') false rl LDefault).
+      { apply N.eqb_neq in Ec. destruct c as [|p]; [reflexivity|].
+        repeat (destruct p as [p|p|]; try reflexivity). congruence. }
+      rewrite Hm. intros H. destruct (dict_get_core_shape _ _ _ _ _ _ _ H); auto.
+Qed.
